@@ -162,17 +162,17 @@ def _elements_by_hand(m):
     import skfem as fem
     n = type(m).__name__
     if n.startswith("MeshLine"):
-        return [fem.ElementLineP1(), fem.ElementLineP2(), fem.ElementLineMini(), fem.ElementLinePp(3), fem.ElementLineHermite()]
+        return [fem.ElementLineP1(), fem.ElementLineP2(), fem.ElementLineMini(), fem.ElementLinePp(3), fem.ElementLineHermite(), fem.ElementVector(fem.ElementLineP2(), 2)]
     if n.startswith("MeshTri"):
         return [fem.ElementTriP1(), fem.ElementTriP2(), fem.ElementTriP3(), fem.ElementTriRT1(), fem.ElementTriMini(), fem.ElementTriCR(),
                 fem.ElementVector(fem.ElementTriP2()), fem.ElementTriP2() * fem.ElementTriP1(), fem.ElementDG(fem.ElementTriP1()), fem.ElementTriMorley(),
-                fem.ElementTriN2(), fem.ElementTriP0()]
+                fem.ElementTriN2(), fem.ElementTriP0(), fem.ElementVector(fem.ElementTriP2(), 1), fem.ElementVector(fem.ElementTriP1(), 3)]
     if n.startswith("MeshQuad"):
         return [fem.ElementQuad1(), fem.ElementQuad2(), fem.ElementQuadS2(), fem.ElementQuadRT1(), fem.ElementQuadP(3), fem.ElementVector(fem.ElementQuad1()),
                 fem.ElementQuad2() * fem.ElementQuad0()]
     if n.startswith("MeshTet"):
         return [fem.ElementTetP1(), fem.ElementTetP2(), fem.ElementTetRT1(), fem.ElementTetN1(), fem.ElementTetMini(), fem.ElementTetCCR(),
-                fem.ElementVector(fem.ElementTetP2()) * fem.ElementTetP0(), fem.ElementTetN1() * fem.ElementTetP1(), fem.ElementTetN1() * fem.ElementTetRT1()]
+                fem.ElementVector(fem.ElementTetP2()) * fem.ElementTetP0(), fem.ElementTetN1() * fem.ElementTetP1(), fem.ElementTetN1() * fem.ElementTetRT1(), fem.ElementVector(fem.ElementTetP2(), 2)]
     if n.startswith("MeshHex"):
         return [fem.ElementHex1(), fem.ElementHex2(), fem.ElementHexS2(), fem.ElementHexRT1(), fem.ElementHexS2() * fem.ElementHex0()]
     if n.startswith("MeshWedge"):
